@@ -134,6 +134,11 @@ fn main() {
         println!("agree={} rejected={} inconclusive={} disagree={} {:?}", ag, rej, inc, dis, whys);
         return;
     }
+    if args.len() >= 3 && args[1] == "ty" {
+        let b = vh::qv::builtins();
+        match vh::qv::compile(&args[2], &b) { Ok(cp) => println!("{}", vh::qv::show_type(&cp)), Err(e) => println!("compile error: {:?}", e) }
+        return;
+    }
     if args.len() >= 3 && args[1] == "bc" {
         let b = vh::qv::builtins();
         match compile_entry(&args[2], &b) { Ok(bc) => { println!("entry={:?} constants={:?}", bc.entry, bc.constants); for (i, f) in bc.functions.iter().enumerate() { println!("fn {} captures={}", i, f.captures); for (k, ins) in f.instructions.iter().enumerate() { println!("  {:3} {:?}", k, ins); } } } Err(e) => println!("compile error: {:?}", e) }
@@ -221,6 +226,7 @@ fn main() {
         "C07" => { vh::c07::check(&rep); rep.finish(vh::c07::RULE, vh::c07::ASSUME, vh::c07::SITUATIONS) }
         "C09" => { vh::c09::check(&rep); rep.finish(vh::c09::RULE, vh::c09::ASSUME, vh::c09::SITUATIONS) }
         "C08" => { vh::c08::check(&rep); rep.finish(vh::c08::RULE, vh::c08::ASSUME, vh::c08::SITUATIONS) }
+        "C01" => { vh::c01::check(&rep); rep.finish(vh::c01::RULE, vh::c01::ASSUME, vh::c01::SITUATIONS) }
         "C02" => { vh::c02::check(&rep); rep.finish(vh::c02::RULE, vh::c02::ASSUME, vh::c02::SITUATIONS) }
         "C16" => { vh::c16::check(&rep); rep.finish(vh::c16::RULE, vh::c16::ASSUME, vh::c16::SITUATIONS) }
         _ => { eprintln!("unknown property {}", id); 2 }
